@@ -78,9 +78,6 @@ def jOptNames : Option (List Nm) → Json
 def mapImage {β γ} (f : β → γ) (im : Image β) : Image γ :=
   { names := im.names, img := im.img.map (·.map (·.map f)), times := im.times }
 
-def mapReturned {β γ} (f : β → γ) (r : Returned β) : Returned γ :=
-  { names := r.names, img := r.img.map (·.map (·.map f)), params := r.params }
-
 /-- a return value: `params` is `null` when the bare array was returned -/
 def jReturned (st : List (List Rat) → Json) : Except Err (Returned Json) → Json
   | .error e => jErr e
@@ -179,24 +176,21 @@ def handle (op : String) (req : Json) : R Json := do
     let evalCall (c : String × CallOpts) : R Json := do
       let (fn, o) := c
       if o.cpsV && !rv then throw "cps needs rational values"
-      -- binary import: bit tokens for counts, exact rationals for counts per second
-      let binOf (spc : Bool) : Except Err (Returned Json) :=
-        if o.cpsV then
-          ((if spc then loadBinaryCallSpec m filesR miSpec cps o else loadBinaryCall m filesR mi cps o).map (mapReturned jRat))
-        else
-          ((if spc then loadBinaryCallSpec m filesT miSpec (fun _ im => im) o
-            else loadBinaryCall m filesT mi (fun _ im => im) o).map (mapReturned jInt))
-      let csvOf (spc : Bool) : Except Err (Returned Json) :=
-        (if spc then loadCsvCallSpec m filesT acqNames (miSpec.map (·.str)) o
-         else loadCsvCall m filesT acqNames o).map (mapReturned jRat)
+      -- the call on the disk as it is (PewModel/Agilent.lean, section 10): bit tokens for counts, exact rationals for
+      -- counts per second and for the CSV text
+      let dT : Disk Int := { mt := m, files := filesT, xs := xs, xadd := xadd, acq := acqNames }
+      let dR : Disk Rat := { mt := m, files := filesR, xs := xs, xadd := xadd, acq := acqNames }
+      let run (spc : Bool) (ep : EntryPoint) : Except Err (Returned Json) :=
+        if o.cpsV then (if spc then callOnSpec jRat jRat cps dR ep o else callOn jRat jRat cps dR ep o)
+        else (if spc then callOnSpec jInt jRat (fun _ im => im) dT ep o else callOn jInt jRat (fun _ im => im) dT ep o)
       let side (spc : Bool) : R Json := do
         let st := if spc then stSpec else stModel
         match fn with
-        | "load_binary" => pure (jObj [("ret", jReturned st (binOf spc)), ("via", jStr "binary")])
-        | "load_csv" => pure (jObj [("ret", jReturned st (csvOf spc)), ("via", jStr "csv")])
+        | "load_binary" => pure (jObj [("ret", jReturned st (run spc .loadBinary)), ("via", jStr "binary")])
+        | "load_csv" => pure (jObj [("ret", jReturned st (run spc .loadCsv)), ("via", jStr "csv")])
         | "load" =>
-          let viaCsv := match binOf spc with | .ok _ => false | .error _ => true
-          pure (jObj [("ret", jReturned st (load (binOf spc) (csvOf spc))), ("via", jStr (if viaCsv then "csv" else "binary"))])
+          let viaCsv := match run spc .loadBinary with | .ok _ => false | .error _ => true
+          pure (jObj [("ret", jReturned st (run spc .load)), ("via", jStr (if viaCsv then "csv" else "binary"))])
         | "collect_datafiles" =>
           match o.methods with
           | none => throw "collect_datafiles needs methods"
